@@ -12,7 +12,8 @@ OBLIGATIONS = dict(
                'pat_lfq_decode', 'pat_rvq_decode', 'pat_simvq_forward', 'pr_vq', 'pr_scalar', 'pr_more'],
 )
 ASSUMPTIONS = [
-    'einops / einx rearrange semantics = row-major grouped axes (the index maps of Model/Layout.v); compared with einops itself on index-labelled tensors for the patterns found at the anchored sites, on several extents per pattern',
+    'einops rearrange / repeat semantics = Model/Einops.v (row-major grouped axes, `...` as one flattened axis): the pattern strings regenerated from the source are interpreted in Coq and proved equal to the index maps of Model/Layout.v; '
+    'the interpreter is compared with einops itself on index-labelled tensors for EVERY collected pattern on 3-8 random extents per run (a test of the trusted semantics, not a proof about einops)',
     'nn.Linear / LayerNorm / SiLU act on the last axis (position-wise); BLAS may reassociate sums when the batch shape changes, so projected outputs are compared within 1e-6 and indices exactly away from near-ties',
 ]
 HEADER = '''From Coq Require Import ZArith QArith Arith List Bool.
